@@ -486,7 +486,7 @@ func churnAndCheck(c *ev.Ctx, r *rand.Rand, held []heldID) {
 		if id == nil || !bytes.Equal(id.Bytes(), h.want) {
 			c.Violation("identity.changed-after-authentication."+h.what, map[string]interface{}{"what": h.what, "proven_public_key": hx(h.pub),
 				"identity_when_assigned": hx(h.want), "identity_now": fmt.Sprint(id), "distinct_ids_interned_since": n, "last_interned": hx(last)})
-			return
+			continue
 		}
 		c.Count("identity_stable_after_cache_churn", 1)
 		c.Count("identity_stable_"+h.what, 1)
